@@ -404,7 +404,10 @@ def argModel (name : String) : List Gen.ArgModel :=
   | some p => p.2
   | none => []
 
-/-! ## the function bodies, host level — written as library.py / data.py write them now -/
+/-! ## the function bodies, host level — written as library.py / data.py write them now
+
+Every body first unpacks the validated argument list (`a, b = value_args_validate(...)`; a wrong arity is Python's
+"too many values to unpack", a `ValueError` → null) and the argument kinds the argument model guarantees. -/
 
 /-- result of a body: value + (for the two mutators) the new contents of argument 0 -/
 abbrev BodyR (N : Type) := Val N × Option (List (Val N))
@@ -413,6 +416,25 @@ def hostE {N α : Type} : Except HostErr α → Except (Fail N) α
   | .ok a => .ok a
   | .error e => .error (.host e)
 
+/-- an unpacking that cannot fail behind the argument model; a failure would be a host exception -/
+def req {N α : Type} : Option α → Except (Fail N) α
+  | some a => .ok a
+  | none => .error (.host .typeError)
+
+def list2 {α : Type} : List α → Option (α × α)
+  | [a, b] => some (a, b)
+  | _ => none
+
+def list3 {α : Type} : List α → Option (α × α × α)
+  | [a, b, c] => some (a, b, c)
+  | _ => none
+
+def Val.asArr? {N : Type} : Val N → Option (List (Val N)) | .arr xs => some xs | _ => none
+def Val.asNum? {N : Type} : Val N → Option N | .num n => some n | _ => none
+def Val.asStr? {N : Type} : Val N → Option String | .str s => some s | _ => none
+/-- a nullable number argument: `none` = not a number or null -/
+def Val.asOptNum? {N : Type} : Val N → Option (Option N) | .null => some none | .num n => some (some n) | _ => none
+
 /-- `x >= n` / `x > n` against a length -/
 def geLen (x : PyNum) (n : Nat) : Bool := !(pyLtI x n)
 def gtLen (x : PyNum) (n : Nat) : Bool := !(pyLeI x n)
@@ -420,56 +442,59 @@ def gtLen (x : PyNum) (n : Nat) : Bool := !(pyLeI x n)
 def badShape {N : Type} : Except (Fail N) (BodyR N) := .error (.host .typeError)
 
 /-- library.py:55-60 -/
-def arrayDeleteH : List HVal → Except (Fail PyNum) (BodyR PyNum)
-  | [.arr xs, .num index] => do
-      if geLen index xs.length then throw (.args .null)
-      let xs' ← hostE (listDel xs (.int (toInt index)))
-      pure (.null, some xs')
-  | _ => badShape
+def arrayDeleteH (v : List HVal) : Except (Fail PyNum) (BodyR PyNum) := do
+  let (a, i) ← req (list2 v)
+  let xs ← req a.asArr?
+  let index ← req i.asNum?
+  if geLen index xs.length then throw (.args .null)
+  let xs' ← hostE (listDel xs (.int (toInt index)))
+  pure (.null, some xs')
 
 /-- library.py:91-96 -/
-def arrayGetH : List HVal → Except (Fail PyNum) (BodyR PyNum)
-  | [.arr xs, .num index] => do
-      if geLen index xs.length then throw (.args .null)
-      let x ← hostE (listIndex xs (.int (toInt index)))
-      pure (x, none)
-  | _ => badShape
+def arrayGetH (v : List HVal) : Except (Fail PyNum) (BodyR PyNum) := do
+  let (a, i) ← req (list2 v)
+  let xs ← req a.asArr?
+  let index ← req i.asNum?
+  if geLen index xs.length then throw (.args .null)
+  let x ← hostE (listIndex xs (.int (toInt index)))
+  pure (x, none)
 
 /-- library.py:264-270 -/
-def arraySetH : List HVal → Except (Fail PyNum) (BodyR PyNum)
-  | [.arr xs, .num index, value] => do
-      if geLen index xs.length then throw (.args .null)
-      let xs' ← hostE (listSet xs value (.int (toInt index)))
-      pure (value, some xs')
-  | _ => badShape
+def arraySetH (v : List HVal) : Except (Fail PyNum) (BodyR PyNum) := do
+  let (a, i, value) ← req (list3 v)
+  let xs ← req a.asArr?
+  let index ← req i.asNum?
+  if geLen index xs.length then throw (.args .null)
+  let xs' ← hostE (listSet xs value (.int (toInt index)))
+  pure (value, some xs')
 
 /-- the same function before the fix of F1 (`array[index] = value`): kept to show what the theorem excludes -/
-def arraySetUnfixedH : List HVal → Except (Fail PyNum) (BodyR PyNum)
-  | [.arr xs, .num index, value] => do
-      if geLen index xs.length then throw (.args .null)
-      let xs' ← hostE (listSet xs value index)
-      pure (value, some xs')
-  | _ => badShape
+def arraySetUnfixedH (v : List HVal) : Except (Fail PyNum) (BodyR PyNum) := do
+  let (a, i, value) ← req (list3 v)
+  let xs ← req a.asArr?
+  let index ← req i.asNum?
+  if geLen index xs.length then throw (.args .null)
+  let xs' ← hostE (listSet xs value index)
+  pure (value, some xs')
 
 /-- library.py:305-314 -/
-def arraySliceH : List HVal → Except (Fail PyNum) (BodyR PyNum)
-  | [.arr xs, .num start, e] => do
-      let stop ← (match e with
-        | .null => pure (PyNum.int xs.length)
-        | .num n => pure n
-        | _ => throw (Fail.host .typeError) : Except (Fail PyNum) PyNum)
-      if gtLen start xs.length then throw (.args .null)
-      if gtLen stop xs.length then throw (.args .null)
-      let r ← hostE (listSlice xs (.int (toInt start)) (.int (toInt stop)))
-      pure (.arr r, none)
-  | _ => badShape
+def arraySliceH (v : List HVal) : Except (Fail PyNum) (BodyR PyNum) := do
+  let (a, s, e) ← req (list3 v)
+  let xs ← req a.asArr?
+  let start ← req s.asNum?
+  let e' ← req e.asOptNum?
+  let stop := e'.getD (PyNum.int xs.length)
+  if gtLen start xs.length then throw (.args .null)
+  if gtLen stop xs.length then throw (.args .null)
+  let r ← hostE (listSlice xs (.int (toInt start)) (.int (toInt stop)))
+  pure (.arr r, none)
 
 /-- library.py:213-215 -/
-def arrayNewSizeH : List HVal → Except (Fail PyNum) (BodyR PyNum)
-  | [.num size, value] => do
-      let n ← hostE (rangeLen (.int (toInt size)))
-      pure (.arr (List.replicate n value), none)
-  | _ => badShape
+def arrayNewSizeH (v : List HVal) : Except (Fail PyNum) (BodyR PyNum) := do
+  let (s, value) ← req (list2 v)
+  let size ← req s.asNum?
+  let n ← hostE (rangeLen (.int (toInt size)))
+  pure (.arr (List.replicate n value), none)
 
 /-- the search loop of arrayIndexOf / arrayLastIndexOf over a list of int indices -/
 def searchH (xs : List HVal) (value : HVal) : List Int → Except (Fail PyNum) Int
@@ -478,94 +503,99 @@ def searchH (xs : List HVal) (value : HVal) : List Int → Except (Fail PyNum) I
       let x ← hostE (listIndex xs (.int ix))
       if cmpEq pyEq x value then pure ix else searchH xs value rest
 
-/-- library.py:111-126 (non-function search value) -/
-def arrayIndexOfH : List HVal → Except (Fail PyNum) (BodyR PyNum)
-  | [.arr xs, value, .num index] => do
-      if geLen index xs.length then throw (.args (.num (.int (-1))))
-      if typeName value == "function" then throw (.host .typeError)      -- match-function variant: not modelled
-      let ixs ← hostE (rangeUp (.int (toInt index)) xs.length)
-      let r ← searchH xs value ixs
-      pure (.num (.int r), none)
-  | _ => badShape
+/-- library.py:111-126 (non-function search value; the match-function variant is not modelled) -/
+def arrayIndexOfH (v : List HVal) : Except (Fail PyNum) (BodyR PyNum) := do
+  let (a, value, i) ← req (list3 v)
+  let xs ← req a.asArr?
+  let index ← req i.asNum?
+  if geLen index xs.length then throw (.args (.num (.int (-1))))
+  if typeName value == "function" then throw (.host .typeError)
+  let ixs ← hostE (rangeUp (.int (toInt index)) xs.length)
+  let r ← searchH xs value ixs
+  pure (.num (.int r), none)
 
 /-- library.py:158-175 (non-function search value) -/
-def arrayLastIndexOfH : List HVal → Except (Fail PyNum) (BodyR PyNum)
-  | [.arr xs, value, i] => do
-      let index ← (match i with
-        | .null => pure (PyNum.int ((xs.length : Int) - 1))
-        | .num n => pure n
-        | _ => throw (Fail.host .typeError) : Except (Fail PyNum) PyNum)
-      if geLen index xs.length then throw (.args (.num (.int (-1))))
-      if typeName value == "function" then throw (.host .typeError)
-      let ixs ← hostE (rangeDown (.int (toInt index)))
-      let r ← searchH xs value ixs
-      pure (.num (.int r), none)
-  | _ => badShape
+def arrayLastIndexOfH (v : List HVal) : Except (Fail PyNum) (BodyR PyNum) := do
+  let (a, value, i) ← req (list3 v)
+  let xs ← req a.asArr?
+  let i' ← req i.asOptNum?
+  let index := i'.getD (PyNum.int ((xs.length : Int) - 1))
+  if geLen index xs.length then throw (.args (.num (.int (-1))))
+  if typeName value == "function" then throw (.host .typeError)
+  let ixs ← hostE (rangeDown (.int (toInt index)))
+  let r ← searchH xs value ixs
+  pure (.num (.int r), none)
 
 /-- library.py:1495-1500 -/
-def stringCharCodeAtH : List HVal → Except (Fail PyNum) (BodyR PyNum)
-  | [.str s, .num index] => do
-      if geLen index s.length then throw (.args .null)
-      let c ← hostE (listIndex s.toList (.int (toInt index)))
-      pure (.num (.int c.toNat), none)
-  | _ => badShape
+def stringCharCodeAtH (v : List HVal) : Except (Fail PyNum) (BodyR PyNum) := do
+  let (a, i) ← req (list2 v)
+  let s ← req a.asStr?
+  let index ← req i.asNum?
+  if geLen index s.length then throw (.args .null)
+  let c ← hostE (listIndex s.toList (.int (toInt index)))
+  pure (.num (.int c.toNat), none)
+
+/-- the per-code check of library.py:1530-1532 -/
+def charCodeOkH : HVal → Except (Fail PyNum) PyNum
+  | .num x => if !(pyEq (.int (toInt x)) x) || pyLtI x 0 then throw (Fail.args .null) else pure x
+  | _ => throw (Fail.args .null)
 
 /-- library.py:1529-1534 (no argument model: the checks are in the body) -/
 def stringFromCharCodeH (codes : List HVal) : Except (Fail PyNum) (BodyR PyNum) := do
-  let nums ← codes.mapM (fun c => match c with
-    | .num x => if !(pyEq (.int (toInt x)) x) || pyLtI x 0 then throw (Fail.args .null) else pure x
-    | _ => throw (Fail.args .null))
+  let nums ← codes.mapM charCodeOkH
   let cs ← nums.mapM (fun x => hostE (pyChr (.int (toInt x))))
   pure (.str (String.ofList cs), none)
 
 /-- library.py:1544-1549 -/
-def stringIndexOfH : List HVal → Except (Fail PyNum) (BodyR PyNum)
-  | [.str s, .str search, .num index] => do
-      if geLen index s.length then throw (.args (.num (.int (-1))))
-      let r ← hostE (strFind s search (.int (toInt index)))
-      pure (.num (.int r), none)
-  | _ => badShape
+def stringIndexOfH (v : List HVal) : Except (Fail PyNum) (BodyR PyNum) := do
+  let (a, b, i) ← req (list3 v)
+  let s ← req a.asStr?
+  let search ← req b.asStr?
+  let index ← req i.asNum?
+  if geLen index s.length then throw (.args (.num (.int (-1))))
+  let r ← hostE (strFind s search (.int (toInt index)))
+  pure (.num (.int r), none)
 
 /-- library.py:1565-1571 -/
-def stringLastIndexOfH : List HVal → Except (Fail PyNum) (BodyR PyNum)
-  | [.str s, .str search, i] => do
-      let index ← (match i with
-        | .null => pure (PyNum.int ((s.length : Int) - 1))
-        | .num n => pure n
-        | _ => throw (Fail.host .typeError) : Except (Fail PyNum) PyNum)
-      if geLen index s.length then throw (.args (.num (.int (-1))))
-      let r ← hostE (strRFind s search (.int (toInt index + search.length)))
-      pure (.num (.int r), none)
-  | _ => badShape
+def stringLastIndexOfH (v : List HVal) : Except (Fail PyNum) (BodyR PyNum) := do
+  let (a, b, i) ← req (list3 v)
+  let s ← req a.asStr?
+  let search ← req b.asStr?
+  let i' ← req i.asOptNum?
+  let index := i'.getD (PyNum.int ((s.length : Int) - 1))
+  if geLen index s.length then throw (.args (.num (.int (-1))))
+  let r ← hostE (strRFind s search (.int (toInt index + search.length)))
+  pure (.num (.int r), none)
 
 /-- library.py:1628-1630 -/
-def stringRepeatH : List HVal → Except (Fail PyNum) (BodyR PyNum)
-  | [.str s, .num count] => do
-      let r ← hostE (strRepeat s (.int (toInt count)))
-      pure (.str r, none)
-  | _ => badShape
+def stringRepeatH (v : List HVal) : Except (Fail PyNum) (BodyR PyNum) := do
+  let (a, c) ← req (list2 v)
+  let s ← req a.asStr?
+  let count ← req c.asNum?
+  let r ← hostE (strRepeat s (.int (toInt count)))
+  pure (.str r, none)
 
 /-- library.py:1663-1671 -/
-def stringSliceH : List HVal → Except (Fail PyNum) (BodyR PyNum)
-  | [.str s, .num start, e] => do
-      let stop ← (match e with
-        | .null => pure (PyNum.int s.length)
-        | .num n => pure n
-        | _ => throw (Fail.host .typeError) : Except (Fail PyNum) PyNum)
-      if gtLen start s.length then throw (.args .null)
-      if gtLen stop s.length then throw (.args .null)
-      let r ← hostE (listSlice s.toList (.int (toInt start)) (.int (toInt stop)))
-      pure (.str (String.ofList r), none)
-  | _ => badShape
+def stringSliceH (v : List HVal) : Except (Fail PyNum) (BodyR PyNum) := do
+  let (a, st, e) ← req (list3 v)
+  let s ← req a.asStr?
+  let start ← req st.asNum?
+  let e' ← req e.asOptNum?
+  let stop := e'.getD (PyNum.int s.length)
+  if gtLen start s.length then throw (.args .null)
+  if gtLen stop s.length then throw (.args .null)
+  let r ← hostE (listSlice s.toList (.int (toInt start)) (.int (toInt stop)))
+  pure (.str (String.ofList r), none)
 
 /-- library.py:1063-1065 + value.py:469-484 (`ValueError` is caught there and becomes null; `TypeError` is not) -/
-def numberParseIntH : List HVal → Except (Fail PyNum) (BodyR PyNum)
-  | [.str s, .num radix] =>
-      match intRadix s (.int (toInt radix)) with
-      | .ok n => pure (.num (.int n), none)
-      | .error .valueError => pure (.null, none)
-      | .error e => throw (.host e)
-  | _ => badShape
+def numberParseIntH (v : List HVal) : Except (Fail PyNum) (BodyR PyNum) := do
+  let (a, r) ← req (list2 v)
+  let s ← req a.asStr?
+  let radix ← req r.asNum?
+  match intRadix s (.int (toInt radix)) with
+  | .ok n => pure (.num (.int n), none)
+  | .error .valueError => pure (.null, none)
+  | .error e => throw (.host e)
 
 /-- `row.get(field)` -/
 def rowGet {N : Type} (row : Val N) (field : Val N) : Except (Fail N) (Val N) :=
@@ -578,25 +608,33 @@ def rowGet {N : Type} (row : Val N) (field : Val N) : Except (Fail N) (Val N) :=
     | _ => pure .null
   | _ => throw (.host .attributeError)
 
+/-- the first-seen categories -/
+def firstSeen {N : Type} (numEq : N → N → Bool) : List (Val N) → List (Val N) → List (Val N)
+  | acc, [] => acc
+  | acc, k :: ks => if acc.any (fun c => keyEq numEq c k) then firstSeen numEq acc ks else firstSeen numEq (acc ++ [k]) ks
+
 /-- bucket rows by category key (first-seen order), keep the first `n` of each bucket (data.py:488-504) -/
 def topRows {N : Type} (numEq : N → N → Bool) (n : Nat) (keyed : List (Val N × Val N)) : List (Val N) :=
-  let cats := keyed.foldl (fun acc p => if acc.any (fun c => keyEq numEq c p.1) then acc else acc ++ [p.1]) []
-  cats.flatMap (fun c => ((keyed.filter (fun p => keyEq numEq c p.1)).take n).map (·.2))
+  (firstSeen numEq [] (keyed.map (·.1))).flatMap
+    (fun c => ((keyed.filter (fun p => keyEq numEq c p.1)).take n).map (·.2))
+
+def rowKey {N : Type} (fields : List (Val N)) (r : Val N) : Except (Fail N) (Val N × Val N) := do
+  let ks ← fields.mapM (rowGet r)
+  pure (Val.arr ks, r)
 
 def categoryKeys {N : Type} (rows : List (Val N)) : Val N → Except (Fail N) (List (Val N × Val N))
   | .null => pure (rows.map (fun r => (Val.str "", r)))
-  | .arr fields => rows.mapM (fun r => do
-      let ks ← fields.mapM (rowGet r)
-      pure (Val.arr ks, r))
+  | .arr fields => rows.mapM (rowKey fields)
   | _ => throw (.host .typeError)
 
 /-- library.py:473-475 + data.py:473-504: `range(min(int(count), len(rows)))` -/
-def dataTopH : List HVal → Except (Fail PyNum) (BodyR PyNum)
-  | [.arr rows, .num count, cf] => do
-      let keyed ← categoryKeys rows cf
-      let n ← hostE (rangeLen (.int (toInt count)))      -- min with the bucket size is the `take`
-      pure (.arr (topRows pyEq n keyed), none)
-  | _ => badShape
+def dataTopH (v : List HVal) : Except (Fail PyNum) (BodyR PyNum) := do
+  let (a, c, cf) ← req (list3 v)
+  let rows ← req a.asArr?
+  let count ← req c.asNum?
+  let keyed ← categoryKeys rows cf
+  let n ← hostE (rangeLen (.int (toInt count)))      -- the `min` with the bucket size is the `take`
+  pure (.arr (topRows pyEq n keyed), none)
 
 /-! ## the same functions over one number type (`Rat`) -/
 
@@ -610,43 +648,49 @@ def idxA {α : Type} (xs : List α) (i : Int) : Except (Fail Rat) α :=
   | some x => pure x
   | none => throw (.host .indexError)
 
-def arrayDeleteA : List AVal → Except (Fail Rat) (BodyR Rat)
-  | [.arr xs, .num index] => do
-      if geLenA index xs.length then throw (.args .null)
-      match normIndex xs.length (ratTrunc index) with
-      | some k => pure (.null, some (xs.eraseIdx k))
-      | none => throw (.host .indexError)
-  | _ => badShape
+def atIndexA {α : Type} (len : Nat) (i : Int) : Except (Fail Rat) Nat :=
+  match normIndex len i with
+  | some k => pure k
+  | none => throw (.host .indexError)
 
-def arrayGetA : List AVal → Except (Fail Rat) (BodyR Rat)
-  | [.arr xs, .num index] => do
-      if geLenA index xs.length then throw (.args .null)
-      let x ← idxA xs (ratTrunc index)
-      pure (x, none)
-  | _ => badShape
+def arrayDeleteA (v : List AVal) : Except (Fail Rat) (BodyR Rat) := do
+  let (a, i) ← req (list2 v)
+  let xs ← req a.asArr?
+  let index ← req i.asNum?
+  if geLenA index xs.length then throw (.args .null)
+  let k ← atIndexA (α := Unit) xs.length (ratTrunc index)
+  pure (.null, some (xs.eraseIdx k))
 
-def arraySetA : List AVal → Except (Fail Rat) (BodyR Rat)
-  | [.arr xs, .num index, value] => do
-      if geLenA index xs.length then throw (.args .null)
-      match normIndex xs.length (ratTrunc index) with
-      | some k => pure (value, some (xs.set k value))
-      | none => throw (.host .indexError)
-  | _ => badShape
+def arrayGetA (v : List AVal) : Except (Fail Rat) (BodyR Rat) := do
+  let (a, i) ← req (list2 v)
+  let xs ← req a.asArr?
+  let index ← req i.asNum?
+  if geLenA index xs.length then throw (.args .null)
+  let x ← idxA xs (ratTrunc index)
+  pure (x, none)
 
-def arraySliceA : List AVal → Except (Fail Rat) (BodyR Rat)
-  | [.arr xs, .num start, e] => do
-      let stop ← (match e with
-        | .null => pure ((xs.length : Int) : Rat)
-        | .num n => pure n
-        | _ => throw (Fail.host .typeError) : Except (Fail Rat) Rat)
-      if gtLenA start xs.length then throw (.args .null)
-      if gtLenA stop xs.length then throw (.args .null)
-      pure (.arr (sliceI xs (ratTrunc start) (ratTrunc stop)), none)
-  | _ => badShape
+def arraySetA (v : List AVal) : Except (Fail Rat) (BodyR Rat) := do
+  let (a, i, value) ← req (list3 v)
+  let xs ← req a.asArr?
+  let index ← req i.asNum?
+  if geLenA index xs.length then throw (.args .null)
+  let k ← atIndexA (α := Unit) xs.length (ratTrunc index)
+  pure (value, some (xs.set k value))
 
-def arrayNewSizeA : List AVal → Except (Fail Rat) (BodyR Rat)
-  | [.num size, value] => pure (.arr (List.replicate (ratTrunc size).toNat value), none)
-  | _ => badShape
+def arraySliceA (v : List AVal) : Except (Fail Rat) (BodyR Rat) := do
+  let (a, s, e) ← req (list3 v)
+  let xs ← req a.asArr?
+  let start ← req s.asNum?
+  let e' ← req e.asOptNum?
+  let stop := e'.getD ((xs.length : Int) : Rat)
+  if gtLenA start xs.length then throw (.args .null)
+  if gtLenA stop xs.length then throw (.args .null)
+  pure (.arr (sliceI xs (ratTrunc start) (ratTrunc stop)), none)
+
+def arrayNewSizeA (v : List AVal) : Except (Fail Rat) (BodyR Rat) := do
+  let (s, value) ← req (list2 v)
+  let size ← req s.asNum?
+  pure (.arr (List.replicate (ratTrunc size).toNat value), none)
 
 def searchA (xs : List AVal) (value : AVal) : List Int → Except (Fail Rat) Int
   | [] => pure (-1)
@@ -654,90 +698,95 @@ def searchA (xs : List AVal) (value : AVal) : List Int → Except (Fail Rat) Int
       let x ← idxA xs ix
       if cmpEq ratEq x value then pure ix else searchA xs value rest
 
+def arrayIndexOfA (v : List AVal) : Except (Fail Rat) (BodyR Rat) := do
+  let (a, value, i) ← req (list3 v)
+  let xs ← req a.asArr?
+  let index ← req i.asNum?
+  if geLenA index xs.length then throw (.args (ofI (-1)))
+  if typeName value == "function" then throw (.host .typeError)
+  let r ← searchA xs value (upFrom (ratTrunc index) xs.length)
+  pure (ofI r, none)
 
-def arrayIndexOfA : List AVal → Except (Fail Rat) (BodyR Rat)
-  | [.arr xs, value, .num index] => do
-      if geLenA index xs.length then throw (.args (ofI (-1)))
-      if typeName value == "function" then throw (.host .typeError)
-      let r ← searchA xs value (upFrom (ratTrunc index) xs.length)
-      pure (ofI r, none)
-  | _ => badShape
+def arrayLastIndexOfA (v : List AVal) : Except (Fail Rat) (BodyR Rat) := do
+  let (a, value, i) ← req (list3 v)
+  let xs ← req a.asArr?
+  let i' ← req i.asOptNum?
+  let index := i'.getD ((((xs.length : Int) - 1 : Int)) : Rat)
+  if geLenA index xs.length then throw (.args (ofI (-1)))
+  if typeName value == "function" then throw (.host .typeError)
+  let r ← searchA xs value (downFrom (ratTrunc index))
+  pure (ofI r, none)
 
-def arrayLastIndexOfA : List AVal → Except (Fail Rat) (BodyR Rat)
-  | [.arr xs, value, i] => do
-      let index ← (match i with
-        | .null => pure ((((xs.length : Int) - 1 : Int)) : Rat)
-        | .num n => pure n
-        | _ => throw (Fail.host .typeError) : Except (Fail Rat) Rat)
-      if geLenA index xs.length then throw (.args (ofI (-1)))
-      if typeName value == "function" then throw (.host .typeError)
-      let r ← searchA xs value (downFrom (ratTrunc index))
-      pure (ofI r, none)
-  | _ => badShape
-
-def stringCharCodeAtA : List AVal → Except (Fail Rat) (BodyR Rat)
-  | [.str s, .num index] => do
-      if geLenA index s.length then throw (.args .null)
-      let c ← idxA s.toList (ratTrunc index)
-      pure (ofI c.toNat, none)
-  | _ => badShape
+def stringCharCodeAtA (v : List AVal) : Except (Fail Rat) (BodyR Rat) := do
+  let (a, i) ← req (list2 v)
+  let s ← req a.asStr?
+  let index ← req i.asNum?
+  if geLenA index s.length then throw (.args .null)
+  let c ← idxA s.toList (ratTrunc index)
+  pure (ofI c.toNat, none)
 
 def chrA (n : Int) : Except (Fail Rat) Char :=
   if 0 ≤ n ∧ n < 0x110000 ∧ ¬ (0xd800 ≤ n ∧ n < 0xe000) then pure (Char.ofNat n.toNat) else throw (.host .valueError)
 
+def charCodeOkA : AVal → Except (Fail Rat) Rat
+  | .num x => if !(((ratTrunc x : Int) : Rat) == x) || decide (x < ((0 : Int) : Rat)) then throw (Fail.args .null) else pure x
+  | _ => throw (Fail.args .null)
+
 def stringFromCharCodeA (codes : List AVal) : Except (Fail Rat) (BodyR Rat) := do
-  let nums ← codes.mapM (fun c => match c with
-    | .num x => if !(((ratTrunc x : Int) : Rat) == x) || decide (x < ((0 : Int) : Rat)) then throw (Fail.args .null) else pure x
-    | _ => throw (Fail.args .null))
+  let nums ← codes.mapM charCodeOkA
   let cs ← nums.mapM (fun x => chrA (ratTrunc x))
   pure (.str (String.ofList cs), none)
 
-def stringIndexOfA : List AVal → Except (Fail Rat) (BodyR Rat)
-  | [.str s, .str search, .num index] => do
-      if geLenA index s.length then throw (.args (ofI (-1)))
-      pure (ofI (findI s.toList search.toList (ratTrunc index)), none)
-  | _ => badShape
+def stringIndexOfA (v : List AVal) : Except (Fail Rat) (BodyR Rat) := do
+  let (a, b, i) ← req (list3 v)
+  let s ← req a.asStr?
+  let search ← req b.asStr?
+  let index ← req i.asNum?
+  if geLenA index s.length then throw (.args (ofI (-1)))
+  pure (ofI (findI s.toList search.toList (ratTrunc index)), none)
 
-def stringLastIndexOfA : List AVal → Except (Fail Rat) (BodyR Rat)
-  | [.str s, .str search, i] => do
-      let index ← (match i with
-        | .null => pure ((((s.length : Int) - 1 : Int)) : Rat)
-        | .num n => pure n
-        | _ => throw (Fail.host .typeError) : Except (Fail Rat) Rat)
-      if geLenA index s.length then throw (.args (ofI (-1)))
-      pure (ofI (rfindI s.toList search.toList (ratTrunc index + search.length)), none)
-  | _ => badShape
+def stringLastIndexOfA (v : List AVal) : Except (Fail Rat) (BodyR Rat) := do
+  let (a, b, i) ← req (list3 v)
+  let s ← req a.asStr?
+  let search ← req b.asStr?
+  let i' ← req i.asOptNum?
+  let index := i'.getD ((((s.length : Int) - 1 : Int)) : Rat)
+  if geLenA index s.length then throw (.args (ofI (-1)))
+  pure (ofI (rfindI s.toList search.toList (ratTrunc index + search.length)), none)
 
-def stringRepeatA : List AVal → Except (Fail Rat) (BodyR Rat)
-  | [.str s, .num count] => pure (.str (String.join (List.replicate (ratTrunc count).toNat s)), none)
-  | _ => badShape
+def stringRepeatA (v : List AVal) : Except (Fail Rat) (BodyR Rat) := do
+  let (a, c) ← req (list2 v)
+  let s ← req a.asStr?
+  let count ← req c.asNum?
+  pure (.str (String.join (List.replicate (ratTrunc count).toNat s)), none)
 
-def stringSliceA : List AVal → Except (Fail Rat) (BodyR Rat)
-  | [.str s, .num start, e] => do
-      let stop ← (match e with
-        | .null => pure ((s.length : Int) : Rat)
-        | .num n => pure n
-        | _ => throw (Fail.host .typeError) : Except (Fail Rat) Rat)
-      if gtLenA start s.length then throw (.args .null)
-      if gtLenA stop s.length then throw (.args .null)
-      pure (.str (String.ofList (sliceI s.toList (ratTrunc start) (ratTrunc stop))), none)
-  | _ => badShape
+def stringSliceA (v : List AVal) : Except (Fail Rat) (BodyR Rat) := do
+  let (a, st, e) ← req (list3 v)
+  let s ← req a.asStr?
+  let start ← req st.asNum?
+  let e' ← req e.asOptNum?
+  let stop := e'.getD ((s.length : Int) : Rat)
+  if gtLenA start s.length then throw (.args .null)
+  if gtLenA stop s.length then throw (.args .null)
+  pure (.str (String.ofList (sliceI s.toList (ratTrunc start) (ratTrunc stop))), none)
 
-def numberParseIntA : List AVal → Except (Fail Rat) (BodyR Rat)
-  | [.str s, .num radix] =>
-      let r := ratTrunc radix
-      if 2 ≤ r ∧ r ≤ 36 then
-        match parseIntText s r.toNat with
-        | some n => pure (ofI n, none)
-        | none => pure (.null, none)
-      else pure (.null, none)
-  | _ => badShape
+def numberParseIntA (v : List AVal) : Except (Fail Rat) (BodyR Rat) := do
+  let (a, r) ← req (list2 v)
+  let s ← req a.asStr?
+  let radix ← req r.asNum?
+  let r := ratTrunc radix
+  if 2 ≤ r ∧ r ≤ 36 then
+    match parseIntText s r.toNat with
+    | some n => pure (ofI n, none)
+    | none => pure (.null, none)
+  else pure (.null, none)
 
-def dataTopA : List AVal → Except (Fail Rat) (BodyR Rat)
-  | [.arr rows, .num count, cf] => do
-      let keyed ← categoryKeys rows cf
-      pure (.arr (topRows ratEq (ratTrunc count).toNat keyed), none)
-  | _ => badShape
+def dataTopA (v : List AVal) : Except (Fail Rat) (BodyR Rat) := do
+  let (a, c, cf) ← req (list3 v)
+  let rows ← req a.asArr?
+  let count ← req c.asNum?
+  let keyed ← categoryKeys rows cf
+  pure (.arr (topRows ratEq (ratTrunc count).toNat keyed), none)
 
 /-! ## the call wrapper (runtime.py:241-251) around validate + body -/
 
@@ -862,5 +911,30 @@ def roundNumberA (rnd : Rat → Rat) (value digits : Rat) : Rat :=
   let m : Rat := if 0 ≤ ratTrunc digits then ((10 ^ (ratTrunc digits).toNat : Int) : Rat) else 1 / ((10 ^ (-(ratTrunc digits)).toNat : Int) : Rat)
   let h : Rat := if 0 ≤ value then 1 / 2 else -(1 / 2)
   rnd ((ratTrunc (rnd (rnd (value * m) + h)) : Rat) / m)
+
+/-! ## the operators `*` and `**` (runtime.py: `float(left_value) * right_value`, `float(left_value) ** right_value`) -/
+
+/-- `float(x)`, and the implicit conversion of an int operand of a float operation: an int is rounded to the nearest double -/
+def toFloatH (rnd : Rat → Rat) : PyNum → Rat
+  | .int n => rnd (n : Rat)
+  | .float q => q
+
+/-- `l * r` as the runtime computes it now: always a float product -/
+def opMulH (rnd : Rat → Rat) (a b : PyNum) : Rat := rnd (toFloatH rnd a * toFloatH rnd b)
+def opMulA (rnd : Rat → Rat) (a b : Rat) : Rat := rnd (rnd a * rnd b)
+
+/-- before the fix (F24): int * int was an exact arbitrary-precision integer -/
+def opMulUnfixedH (rnd : Rat → Rat) : PyNum → PyNum → Rat
+  | .int a, .int b => ((a * b : Int) : Rat)
+  | a, b => rnd (toFloatH rnd a * toFloatH rnd b)
+
+/-- `l ** r` over an abstract double power function (`none` = OverflowError / ZeroDivisionError / complex → null) -/
+def opPowH (pw : Rat → Rat → Option Rat) (rnd : Rat → Rat) (a b : PyNum) : Option Rat := pw (toFloatH rnd a) (toFloatH rnd b)
+def opPowA (pw : Rat → Rat → Option Rat) (rnd : Rat → Rat) (a b : Rat) : Option Rat := pw (rnd a) (rnd b)
+
+/-- a host float holds a double -/
+def IsDouble (rnd : Rat → Rat) : PyNum → Prop
+  | .int _ => True
+  | .float q => rnd q = q
 
 end LibH
